@@ -10,6 +10,7 @@ Cases (JSON):
   {"op":"groupby","group_by":S,"merge":S,"ctxset":"ab2"}                    a named, fixed list of contexts
 SPEC is the encoding documented in lean/drivers/C15.lean.
 """
+import functools
 import itertools
 import json
 import os
@@ -19,23 +20,28 @@ from harness.common import exc_name, jdump
 PID = "C15"
 TITLE = "Selectors evaluate compositionally; GroupBy partitions by the selected context"
 LEAN_MODULES = ["LenaModel.Props.C15"]
-LEAN_SOURCES = ["LenaModel/Model/C15.lean", "LenaModel/Props/C15.lean"]
+LEAN_SOURCES = ["LenaModel/Model/C15.lean", "LenaModel/Lemmas/C15.lean", "LenaModel/Props/C15.lean"]
 DRIVER = "drivers/C15.lean"
 THEOREMS = [
     "Lena.C15.selector_compositional",
+    "Lena.C15.sem_list_tuple",
     "Lena.C15.selector_init_error",
     "Lena.C15.selector_absorbs_errors",
     "Lena.C15.selector_total_leaves",
+    "Lena.C15.semB_list_tuple_not",
     "Lena.C15.select_context_absent_false",
     "Lena.C15.select_context_present",
     "Lena.C15.filter_keeps_selected",
     "Lena.C15.filter_stops_at_first_error",
     "Lena.C15.make_fuel_suffices",
     "Lena.C15.sel_eq_polarity",
+    "Lena.C15.mem_prefixesDesc",
     "Lena.C15.iet_get_is_longest_prefix",
+    "Lena.C15.make_include_exclude_tree_get",
     "Lena.C15.keep_leaf_paths",
     "Lena.C15.same_key_iff_agree",
     "Lena.C15.groupby_partition",
+    "Lena.C15.groupby_share_iff_agree",
 ]
 TRUSTED = [
     "Lean 4.33.0 kernel; axioms limited to propext, Classical.choice, Quot.sound (audited by #print axioms on every run)",
@@ -181,7 +187,9 @@ def _out(f, *a):
 # ---------------------------------------------------------------------------------------------
 # named context sets
 
+@functools.lru_cache(maxsize=None)
 def _ctxset(name):
+    """a named, fixed list of contexts (cached: never mutate the result, copy the contexts before use)"""
     if name == "ab2":
         sub = [dict((k, v) for k, v in zip("ab", vs) if v is not None)
                for vs in itertools.product([None, 1, 2, {}], repeat=2)]
